@@ -15,7 +15,6 @@ enum { IARF_IGNORE_I = 0, IARF_ADD_I = 1, IARF_REMOVE_I = 2, IARF_FORCE_I = 3 };
 #define MAY_WEAKEN_REMOVE(id) ((id) == RULE_sp_inside_angle)
 /* recorded known finding (known_findings.txt): sp_bool gets the ADD bit when pos_bool != ignore and the two tokens were on
  * different input lines. The state predicate of that deviation; every other state of rule sp_bool is checked strictly. */
-#define HAS_KNOWN_DEV(id) ((id) == RULE_sp_bool)
 #define KNOWN_DEV(id) ((id) == RULE_sp_bool && optv_pos_bool != 0 && Chunk_m_origLine(P0) != Chunk_m_origLine(P1))
 int do_space_contract(struct Chunk *first, struct Chunk *second, int *min_sp)
 __CPROVER_requires(first == P0 && second == P1 && __CPROVER_is_fresh(min_sp, sizeof(int)))
@@ -28,6 +27,55 @@ __CPROVER_assigns(*min_sp, g_rule_id, g_rule_count, restoreValues, Chunk_m_type(
 __CPROVER_ensures(__CPROVER_return_value >= 0 && __CPROVER_return_value <= 3)
 /* a rule is always reported */
 __CPROVER_ensures(g_rule_count >= 1)
-/* attribution, one clause per IARF option (generated): if the rule reported is option X, the value returned is X's value */
-ATTRIBUTION_ENSURES
+/* attribution, one clause per IARF option (generated): if the rule reported is option X, the value returned is X's value.
+ * Rules with a recorded known deviation (contracts/C19/known_dev_rules.txt) have two clauses: the general one (expected to fail,
+ * matched against known_findings.txt) and a strict one restricted to states outside the recorded deviation (KNOWN_DEV). */
+ATTRIBUTION_ENSURES_MAIN
+#ifndef NO_KNOWN_CLAUSES
+ATTRIBUTION_ENSURES_KNOWN
+#endif
 ;
+
+#ifdef PLAIN_VC
+/* ---- the same contract as a direct verification condition: assume requires; call the real function; assert ensures ----
+ * (no goto-instrument pass: DFCC's write-set instrumentation of the ~3000 inlined accessor calls of do_space makes the
+ * formula 20x larger - 66M clauses, 12 min - which does not fit a check run on every change; the DFCC-enforced form of
+ * the contract above, frame included, is proof do_space_dfcc of the thorough tier).  Not checked here: the assigns clause.
+ * Loops: the three table scans are unwound completely and the two chunk walks are bounded by the environment (every chunk
+ * has finitely many successors: navigation fuel, see space.impl.cpp), all under --unwinding-assertions. */
+void *malloc(unsigned long);
+unsigned long nondet_ul(void);
+int w_do_space(struct Chunk *first, struct Chunk *second, int *min_sp);
+extern unsigned g_fwd_fuel;
+static void mk_chunk(struct Chunk *p, _Bool isnull)
+{
+   Chunk_m_nullChunk(p) = isnull;
+   unsigned long cap = nondet_ul();
+   __CPROVER_assume(cap <= MAXCAP && DI_size(UT_chars(Chunk_m_str(p))) <= cap);
+   DI_cap(UT_chars(Chunk_m_str(p))) = cap;
+   DI_data(UT_chars(Chunk_m_str(p))) = malloc(cap * sizeof(int));
+   __CPROVER_assume(DI_data(UT_chars(Chunk_m_str(p))) != (int *)0);
+}
+static int vc_r;
+#undef __CPROVER_return_value
+#define __CPROVER_return_value vc_r
+#undef __CPROVER_ensures
+#define __CPROVER_ensures(c) __CPROVER_assert(c, "postcondition: do_space " #c);
+void h_do_space_vc(void)
+{
+   int msp;
+   /* every attribute of every chunk is arbitrary (the C++ constructors of the pool objects have run before: undo them) */
+   __CPROVER_havoc_object(P0);      /* the whole pool array */
+   __CPROVER_havoc_object(PN);
+   mk_chunk(P0, 0); mk_chunk(P1, 0); mk_chunk(P2, 0); mk_chunk(P3, 0); mk_chunk(PN, 1);
+   __CPROVER_assume(ALL_IARF_IN_RANGE && OPT_RANGE_pos_bool && OPT_RANGE_pos_constr_comma && g_rule_count == 0 && g_fwd_fuel <= 6);
+   vc_r = w_do_space(P0, P1, &msp);
+   __CPROVER_ensures(vc_r >= 0 && vc_r <= 3)
+   __CPROVER_ensures(g_rule_count >= 1)
+   ATTRIBUTION_ENSURES_MAIN
+   ATTRIBUTION_ENSURES_KNOWN
+   if (g_rule_id == RULE_sp_arith) { __CPROVER_assert(0, "VACUITY_CANARY do_space: rule sp_arith reachable"); }
+   if (g_rule_id == 0) { __CPROVER_assert(0, "VACUITY_CANARY do_space: non-option rule reachable"); }
+   if (g_rule_id == RULE_sp_before_semi) { __CPROVER_assert(0, "VACUITY_CANARY do_space: rule sp_before_semi reachable"); }
+}
+#endif
